@@ -1,0 +1,9 @@
+//go:build !verif
+
+package service
+
+import "net"
+
+func verifWrapPacketConn(pc net.PacketConn) net.PacketConn { return pc }
+
+func verifPoint(name string) {}
